@@ -2,6 +2,8 @@ package props
 
 import (
 	"os"
+	"path/filepath"
+	"sort"
 	"strings"
 	"sync"
 )
@@ -57,3 +59,22 @@ func corpusFieldValues(names ...string) []string {
 	}
 	return out
 }
+
+// corpusDep5 returns the machine-readable (DEP-5) copyright files installed on this machine: real deb822 documents
+// with many paragraphs and long multi-line fields (licence texts with " ." lines).
+func corpusDep5() []string {
+	dep5Once.Do(func() {
+		files, _ := filepath.Glob("/usr/share/doc/*/copyright")
+		sort.Strings(files)
+		for _, f := range files {
+			b, err := os.ReadFile(f)
+			if err == nil && len(b) < 1<<20 && strings.HasPrefix(string(b), "Format:") {
+				dep5Docs = append(dep5Docs, string(b))
+			}
+		}
+	})
+	return dep5Docs
+}
+
+var dep5Once sync.Once
+var dep5Docs []string
